@@ -61,7 +61,7 @@ let () =
            let lin_ok = (match replay (List.map nat_of_int s0) c.hist with
                | Some s -> List.map int_of_nat s = List.map int_of_nat stack
                | None -> false) in
-           "hist: " ^ String.concat " " ev
+           "hist:" ^ String.concat "" (List.map (fun e -> " " ^ e) ev)
            ^ " | stack:" ^ (if List.length stack > ni then " <cycle>" else nats stack)
            ^ " | cnt=" ^ string_of_int (int_of_z c.hcnt)
            ^ " | own:" ^ String.concat " ;" (List.map (fun th -> nats th.t_own) c.thr)
